@@ -70,7 +70,7 @@ def pubE (tbl : Table) : Expr → Option (List LCell)
     | _, _ => none
   | .ite c a b =>
     match pubE tbl c, pubE tbl a, pubE tbl b with
-    | some sc, some sa, some sb => some (sc ++ (if sizeCells sa < sizeCells sb then sb else sa))
+    | some sc, some sa, some sb => some (sc ++ (sa ++ sb))
     | _, _, _ => none
   | .tup es => pubL tbl es
   | .app f args =>
